@@ -1393,7 +1393,8 @@ theorem readInst_print (useHex : Int → Bool) (i : Inst) (hi : instOK i) : read
 
 /-- the attachments are well-formed and the instruction text itself contains no `, !` outside a quoted name (decidable; evaluated on the instance) -/
 def mdOK (useHex : Int → Bool) (i : Inst) : Prop :=
-  (∀ a ∈ i.md, a.1 ≠ [] ∧ a.2 < 2 ^ 63) ∧ scanMd false (instString useHex i) = some false ∧ (i.md = [] ∨ (noMdRows.contains i.row = false ∧ extIsNone i.ext = true))
+  (∀ a ∈ i.md, a.1 ≠ [] ∧ a.2 < 2 ^ 63) ∧ scanMd false (instString useHex i) = some false ∧ (i.md = [] ∨ noMdRows.contains i.row = false) ∧
+  (∀ l ∈ (extLines useHex i.ext).getLast?, scanMd false l = some false)
 
 theorem startsMd_append (b R : Bytes) (hb : b ≠ []) (h : startsMd b = false) (hR : R = [] ∨ R.head? = some 44) : startsMd (b ++ R) = false := by
   rcases hR with hR | hR
@@ -1468,7 +1469,7 @@ theorem mdString_len : ∀ (md : List (Bytes × Nat)), md.length ≤ (mdString m
 
 theorem readInstMd_print (useHex : Int → Bool) (i : Inst) (hi : instOK i) (hm : mdOK useHex i) :
     readInstMd (instString useHex i ++ mdString i.md) = some { i with ext := .none } := by
-  obtain ⟨hmd, hscan, hrow⟩ := hm
+  obtain ⟨hmd, hscan, hrow, _⟩ := hm
   have hsp := splitMd_scan (instString useHex i) false false (mdString i.md) hscan (mdString_head i.md)
   rw [splitMd_mdString i.md (fun a ha => (hmd a ha).1)] at hsp
   simp only [List.append_nil] at hsp
@@ -1476,7 +1477,7 @@ theorem readInstMd_print (useHex : Int → Bool) (i : Inst) (hi : instOK i) (hm 
   have hc : (noMdRows.contains i.row && !i.md.isEmpty) = false := by
     rcases hrow with h | h
     · simp [h]
-    · rw [h.1]; rfl
+    · rw [h]; rfl
   simp only [readInstMd, hsp, readInst_print useHex i hi, hr, hc, Bool.false_eq_true, if_false]
 
 /-! ### blocks -/
@@ -1684,46 +1685,265 @@ theorem instLine_notCont (useHex : Int → Bool) (i : Inst) (hi : instOK i) (x :
       have : (9 == c) = false := by simpa using fun e : (9 : UInt8) = c => hh.2 e.symm
       simp [this]
 
-/-- the lines of an instruction are read back as that instruction -/
+/-! ### the attachments on the last line of the instruction -/
+
+theorem appendLast_drop : ∀ (E : List Bytes) (m : Bytes) (tl : List Bytes) (hne : E ≠ []),
+    (appendLast E m ++ tl).drop (E.length - 1) = (E.getLast hne ++ m) :: tl
+  | [], _, _, hne => absurd rfl hne
+  | [l], m, tl, _ => by simp [appendLast]
+  | l :: k :: ls, m, tl, _ => by
+    have ih := appendLast_drop (k :: ls) m tl (by simp)
+    simp only [appendLast, List.cons_append, List.length_cons, Nat.add_sub_cancel] at ih ⊢
+    simpa using ih
+
+theorem appendLast_take : ∀ (E : List Bytes) (m : Bytes) (tl : List Bytes) (hne : E ≠ []),
+    (appendLast E m ++ tl).take (E.length - 1) ++ E.getLast hne :: tl = E ++ tl
+  | [], _, _, hne => absurd rfl hne
+  | [l], m, tl, _ => by simp [appendLast]
+  | l :: k :: ls, m, tl, _ => by
+    have ih := appendLast_take (k :: ls) m tl (by simp)
+    simp only [appendLast, List.cons_append, List.length_cons, Nat.add_sub_cancel] at ih ⊢
+    simpa using ih
+
+theorem appendLast_length : ∀ (E : List Bytes) (m : Bytes), (appendLast E m).length = E.length
+  | [], _ => rfl
+  | [_], _ => rfl
+  | _ :: k :: ls, m => by have := appendLast_length (k :: ls) m; simp only [appendLast, List.length_cons] at this ⊢; omega
+
+/-- the lines of `appendLast` keep the prefix of each line -/
+theorem appendLast_prefix (p : Bytes → Bool) (hp : ∀ l s, p l = true → p (l ++ s) = true) :
+    ∀ (E : List Bytes) (m : Bytes), (∀ l ∈ E, p l = true) → ∀ l ∈ appendLast E m, p l = true
+  | [], _, _ => by simp [appendLast]
+  | [l], m, h => by
+    intro x hx; simp only [appendLast, List.mem_singleton] at hx; subst hx; exact hp l m (h l (by simp))
+  | l :: k :: ls, m, h => by
+    intro x hx
+    simp only [appendLast, List.mem_cons] at hx
+    rcases hx with rfl | hx
+    · exact h _ (by simp)
+    · exact appendLast_prefix p hp (k :: ls) m (fun y hy => h y (by simp [hy])) x (by simpa using hx)
+
+theorem stripPrefix_append_some (p l s : Bytes) (h : (TyParse.stripPrefix p l).isSome = true) : (TyParse.stripPrefix p (l ++ s)).isSome = true := by
+  induction p generalizing l with
+  | nil => simp [TyParse.stripPrefix]
+  | cons c p ih =>
+    cases l with
+    | nil => simp [TyParse.stripPrefix] at h
+    | cons d l =>
+      simp only [TyParse.stripPrefix, List.cons_append] at h ⊢
+      split at h
+      · rename_i hc; simp only [hc, if_true]; exact ih l h
+      · simp at h
+
+theorem takeWhile_all_append (p : Bytes → Bool) : ∀ (E tl : List Bytes), (∀ l ∈ E, p l = true) → (∀ l ∈ tl.head?, p l = false) →
+    (E ++ tl).takeWhile p = E
+  | [], tl, _, htl => by
+    cases tl with
+    | nil => rfl
+    | cons t ts => simp [List.takeWhile, htl t (by simp)]
+  | e :: es, tl, h, htl => by
+    simp only [List.cons_append, List.takeWhile, h e (by simp)]
+    congr 1
+    exact takeWhile_all_append p es tl (fun l hl => h l (by simp [hl])) htl
+
+theorem caseLine_tabs (useHex : Int → Bool) (c : Ty × Const × Ident) : (TyParse.stripPrefix [9, 9] (caseLine useHex c)).isSome = true := by
+  simp [caseLine, TyParse.stripPrefix]
+
+theorem clauseLine_tabs (useHex : Int → Bool) (c : Bool × Ty × Operand) : (TyParse.stripPrefix [9, 9] (clauseLine useHex c)).isSome = true := by
+  obtain ⟨f, t, o⟩ := c
+  cases f <;> simp [clauseLine, sFilter, sCatch, TyParse.stripPrefix]
+
+theorem tabs_not_close (l : Bytes) (h : (TyParse.stripPrefix [9, 9] l).isSome = true) : (TyParse.stripPrefix sCloseCases l).isSome = false := by
+  cases l with
+  | nil => simp [TyParse.stripPrefix] at h
+  | cons a r =>
+    cases r with
+    | nil =>
+      simp only [TyParse.stripPrefix] at h
+      split at h <;> simp at h
+    | cons b r' =>
+      simp only [TyParse.stripPrefix, sCloseCases] at h ⊢
+      split at h
+      · rename_i ha
+        split at h
+        · rename_i hb
+          have ha' : a = 9 := by have h := ha; simp at h; exact h.symm
+          have hb' : b = 9 := by have h := hb; simp at h; exact h.symm
+          subst ha' hb'; simp
+        · simp at h
+      · simp at h
+
+theorem appendLast_snoc : ∀ (L : List Bytes) (c m : Bytes), appendLast (L ++ [c]) m = L ++ [c ++ m]
+  | [], _, _ => rfl
+  | [_], _, _ => rfl
+  | l :: k :: ls, c, m => by
+    have := appendLast_snoc (k :: ls) c m
+    simp only [List.cons_append, appendLast] at this ⊢
+    rw [this]
+
+/-- the number of continuation lines is read off the printed lines -/
+theorem extCount_print (useHex : Int → Bool) (row : Nat) (x : Ext) (hx : extOK row x) (m : Bytes) (tl : List Bytes)
+    (htl : ∀ l ∈ tl.head?, notCont l = true) (hne : extLines useHex x ≠ []) :
+    extCount row (appendLast (extLines useHex x) m ++ tl) = (extLines useHex x).length := by
+  cases x with
+  | none => simp [extLines] at hne
+  | cases cs =>
+    obtain ⟨h1, _⟩ := hx
+    subst h1
+    -- the case lines do not start with `<tab>]`, the closing line does
+    have hE : appendLast (cs.map (caseLine useHex) ++ [sCloseCases]) m = cs.map (caseLine useHex) ++ [sCloseCases ++ m] := appendLast_snoc _ _ _
+    simp only [extCount, beq_self_eq_true, if_true, extLines, hE, List.append_assoc, List.singleton_append, List.length_append, List.length_map,
+      List.length_singleton]
+    have : ((cs.map (caseLine useHex)) ++ (sCloseCases ++ m) :: tl).takeWhile (fun l => !(TyParse.stripPrefix sCloseCases l).isSome) = cs.map (caseLine useHex) := by
+      apply takeWhile_all_append
+      · intro l hl
+        obtain ⟨c, _, rfl⟩ := List.mem_map.mp hl
+        simp [tabs_not_close _ (caseLine_tabs useHex c)]
+      · intro l hl
+        simp only [List.head?_cons, Option.mem_def, Option.some.injEq] at hl
+        subst hl
+        have := stripPrefix_append_some sCloseCases sCloseCases m (by simp [sCloseCases, TyParse.stripPrefix])
+        simp [this]
+    rw [this]; simp
+  | dests n u =>
+    obtain ⟨h1, _, _⟩ := hx
+    have b1 : (row == swRow) = false := by
+      simp only [invRows, List.mem_cons, List.not_mem_nil, or_false] at h1
+      rcases h1 with h | h <;> subst h <;> rfl
+    have b2 : invRows.contains row = true := by simpa using h1
+    simp only [extCount, b1, b2, Bool.false_eq_true, if_false, if_true, extLines, List.length_singleton]
+  | clauses cl cs =>
+    obtain ⟨h1, _⟩ := hx
+    subst h1
+    have b1 : (lpRow == swRow) = false := rfl
+    have b2 : invRows.contains lpRow = false := rfl
+    simp only [extCount, b1, b2, Bool.false_eq_true, if_false, beq_self_eq_true, if_true]
+    have hall : ∀ l ∈ extLines useHex (.clauses cl cs), (TyParse.stripPrefix [9, 9] l).isSome = true := by
+      intro l hl
+      simp only [extLines, List.mem_append, List.mem_map] at hl
+      rcases hl with hl | ⟨c, _, rfl⟩
+      · cases cl with
+        | true => simp at hl; subst hl; simp [sCleanup, TyParse.stripPrefix]
+        | false => simp at hl
+      · exact clauseLine_tabs useHex c
+    have := takeWhile_all_append (fun l => (TyParse.stripPrefix [9, 9] l).isSome) (appendLast (extLines useHex (.clauses cl cs)) m) tl
+      (appendLast_prefix _ (fun l s h => stripPrefix_append_some [9, 9] l s h) _ m hall)
+      (fun l hl => by have := htl l hl; simpa [notCont] using this)
+    rw [this, appendLast_length]
+
+/-- an instruction without continuation lines has none to count -/
+theorem extCount_nil (useHex : Int → Bool) (row : Nat) (x : Ext) (hx : extOK row x) (tl : List Bytes)
+    (htl : ∀ l ∈ tl.head?, notCont l = true) (he : extLines useHex x = []) : extCount row tl = 0 := by
+  cases x with
+  | none =>
+    obtain ⟨h1, h2, h3⟩ := hx
+    have b1 : (row == swRow) = false := by simpa using h1
+    have b2 : invRows.contains row = false := by simpa using h2
+    have b3 : (row == lpRow) = false := by simpa using h3
+    simp only [extCount, b1, b2, b3, Bool.false_eq_true, if_false]
+  | cases cs => simp [extLines] at he
+  | dests n u => simp [extLines] at he
+  | clauses cl cs =>
+    obtain ⟨h1, _⟩ := hx
+    subst h1
+    have b1 : (lpRow == swRow) = false := rfl
+    have b2 : invRows.contains lpRow = false := rfl
+    simp only [extCount, b1, b2, Bool.false_eq_true, if_false, beq_self_eq_true, if_true]
+    have := takeWhile_all_append (fun l => (TyParse.stripPrefix [9, 9] l).isSome) [] tl (by simp)
+      (fun l hl => by have := htl l hl; simpa [notCont] using this)
+    simp only [List.nil_append] at this
+    rw [this]; rfl
+
+theorem splitExtMd_print (E : List Bytes) (hne : E ≠ []) (md : List (Bytes × Nat)) (tl : List Bytes)
+    (hscan : scanMd false (E.getLast hne) = some false) (hmd : ∀ a ∈ md, a.1 ≠ [] ∧ a.2 < 2 ^ 63) :
+    splitExtMd E.length (appendLast E (mdString md) ++ tl) = some (md, E ++ tl) := by
+  have hsp := splitMd_scan (E.getLast hne) false false (mdString md) hscan (mdString_head md)
+  rw [splitMd_mdString md (fun a ha => (hmd a ha).1)] at hsp
+  simp only [List.append_nil] at hsp
+  have hr := readMds_print md ((mdString md).length + 1) hmd (by have := mdString_len md; omega)
+  simp only [splitExtMd, appendLast_drop E (mdString md) tl hne, hsp, hr, appendLast_take E (mdString md) tl hne]
+
+/-- the lines of an instruction are read back as that instruction: its first line, the attachments (from the first line when there is no other, from the last
+    line otherwise), the continuation lines -/
 theorem inst_lines (useHex : Int → Bool) (i : Inst) (hi : instOK i) (hmd : mdOK useHex i) (tl : List Bytes) (htl : ∀ l ∈ tl.head?, notCont l = true) :
-    readInstMd (instString useHex i ++ mdString i.md) = some { i with ext := .none } ∧ readExt i.row (extLines useHex i.ext ++ tl) = some (i.ext, tl) := by
-  refine ⟨readInstMd_print useHex i hi hmd, ?_⟩
-  obtain ⟨_, _, _, _, _, _, _, hx⟩ := hi
-  exact readExt_print useHex i.row i.ext hx tl htl
+    ∃ (first : Bytes) (rest : List Bytes) (i0 : Inst), instLines useHex i ++ tl = (9 :: first) :: rest ∧ readInstMd first = some i0 ∧
+      i0.row = i.row ∧ ({ i0 with ext := i.ext, md := i.md } : Inst) = i ∧
+      (if extCount i.row rest == 0 then some (i0.md, rest) else if !i0.md.isEmpty then none else splitExtMd (extCount i.row rest) rest) =
+        some (i.md, extLines useHex i.ext ++ tl) ∧
+      readExt i.row (extLines useHex i.ext ++ tl) = some (i.ext, tl) := by
+  have hx : extOK i.row i.ext := by obtain ⟨_, _, _, _, _, _, _, hx⟩ := hi; exact hx
+  have hre := readExt_print useHex i.row i.ext hx tl htl
+  cases hE : extLines useHex i.ext with
+  | nil =>
+    refine ⟨instString useHex i ++ mdString i.md, tl, { i with ext := .none }, ?_, readInstMd_print useHex i hi hmd, rfl, by cases i; rfl, ?_, by rw [← hE]; exact hre⟩
+    · simp [instLines, hE]
+    · have := extCount_nil useHex i.row i.ext hx tl htl hE
+      simp [this]
+  | cons e es =>
+    have hne : extLines useHex i.ext ≠ [] := by rw [hE]; simp
+    -- the first line carries no attachment
+    have hi' : instOK ({ i with md := [] } : Inst) := hi
+    have hmd' : mdOK useHex ({ i with md := [] } : Inst) := ⟨by intro a ha; simp at ha, hmd.2.1, Or.inl rfl, hmd.2.2.2⟩
+    have hr := readInstMd_print useHex ({ i with md := [] } : Inst) hi' hmd'
+    have hs : instString useHex ({ i with md := [] } : Inst) = instString useHex i := rfl
+    simp only [hs, mdString, List.append_nil] at hr
+    refine ⟨instString useHex i, appendLast (e :: es) (mdString i.md) ++ tl, { i with ext := .none, md := [] }, ?_, hr, rfl, by cases i; rfl, ?_, by rw [← hE]; exact hre⟩
+    · simp [instLines, hE]
+    · have hc := extCount_print useHex i.row i.ext hx (mdString i.md) tl htl hne
+      rw [hE] at hc
+      have hlast : scanMd false ((e :: es).getLast (by simp)) = some false := by
+        have := hmd.2.2.2 ((e :: es).getLast (by simp)) (by rw [hE]; simp [List.getLast?_eq_some_getLast])
+        exact this
+      have hsplit := splitExtMd_print (e :: es) (by simp) i.md tl hlast hmd.1
+      simp only [hc, List.length_cons] at hsplit ⊢
+      simp [hsplit]
 
 /-- the instruction lines of a block are read up to and including the terminator -/
-theorem mdOK_ext (useHex : Int → Bool) (i : Inst) (hm : mdOK useHex i) : (!i.md.isEmpty && !extIsNone i.ext) = false := by
-  rcases hm.2.2 with h | h
-  · simp [h]
-  · simp [h.2]
-
 theorem readBody_lines (useHex : Int → Bool) (t : Inst) (ht : instOK t) (htm : mdOK useHex t) (htt : isTerm t = true) (tl : List Bytes)
     (htl : ∀ l ∈ tl.head?, notCont l = true) :
     ∀ (is : List Inst), (∀ i ∈ is, instOK i ∧ isTerm i = false) → (∀ i ∈ is, mdOK useHex i) → ∀ f, is.length + 1 ≤ f →
       readBody' f (is.flatMap (instLines useHex) ++ (instLines useHex t ++ tl)) = some (is, t, tl)
   | [], _, _, f, hf => by
     obtain ⟨f', rfl⟩ : ∃ f', f = f' + 1 := ⟨f - 1, by simp at hf; omega⟩
-    obtain ⟨h1, h2⟩ := inst_lines useHex t ht htm tl htl
-    have et : ({ ({ t with ext := .none } : Inst) with ext := t.ext } : Inst) = t := by cases t; rfl
-    simp only [List.flatMap_nil, List.nil_append, instLines, List.cons_append, readBody', isInstLine, List.head?_cons, beq_self_eq_true,
-      Bool.not_true, Bool.false_eq_true, if_false, List.tail_cons, h1, h2, et, htt, if_true, mdOK_ext useHex t htm]
+    obtain ⟨first, rest, i0, hl, h1, hrow, hi0, h2, h3⟩ := inst_lines useHex t ht htm tl htl
+    have e : ({ res := i0.res, row := t.row, args := i0.args, ext := t.ext, md := t.md } : Inst) = t := by rw [← hrow]; exact hi0
+    simp only [List.flatMap_nil, List.nil_append, hl, readBody', isInstLine, List.head?_cons, beq_self_eq_true,
+      Bool.not_true, Bool.false_eq_true, if_false, List.tail_cons, h1, hrow, h2, h3, e, htt, if_true]
   | i :: is, hi, him, f, hf => by
     obtain ⟨f', rfl⟩ : ∃ f', f = f' + 1 := ⟨f - 1, by simp at hf; omega⟩
     have ih := readBody_lines useHex t ht htm htt tl htl is (fun x hx => hi x (by simp [hx])) (fun x hx => him x (by simp [hx])) f' (by simp at hf ⊢; omega)
     have h1 := hi i (by simp)
     -- the line after the lines of `i` is the first line of an instruction
+    have hfirst : ∀ (j : Inst), instOK j → ∀ l ∈ (instLines useHex j).head?, notCont l = true := by
+      intro j hj l hl
+      cases hE : extLines useHex j.ext with
+      | nil => simp [instLines, hE] at hl; subst hl; exact instLine_notCont useHex j hj _
+      | cons e es =>
+        simp [instLines, hE] at hl; subst hl
+        have := instLine_notCont useHex j hj []
+        simpa using this
     have hnext : ∀ l ∈ (is.flatMap (instLines useHex) ++ (instLines useHex t ++ tl)).head?, notCont l = true := by
       intro l hl
       cases is with
-      | nil => simp [instLines] at hl; subst hl; exact instLine_notCont useHex t ht _
-      | cons j js => simp [instLines] at hl; subst hl; exact instLine_notCont useHex j (hi j (by simp)).1 _
-    obtain ⟨h2, h3⟩ := inst_lines useHex i h1.1 (him i (by simp)) _ hnext
-    have et : ({ ({ i with ext := .none } : Inst) with ext := i.ext } : Inst) = i := by cases i; rfl
-    simp only [List.flatMap_cons, instLines, List.cons_append, List.append_assoc, readBody', isInstLine, List.head?_cons, beq_self_eq_true,
-      Bool.not_true, Bool.false_eq_true, if_false, List.tail_cons, h2] at ih h3 ⊢
-    simp only [h3, et, h1.2, ih, Bool.false_eq_true, if_false, mdOK_ext useHex i (him i (by simp))]
+      | nil =>
+        simp only [List.flatMap_nil, List.nil_append] at hl
+        have hne : instLines useHex t ≠ [] := by unfold instLines; split <;> simp
+        cases hL : instLines useHex t with
+        | nil => exact absurd hL hne
+        | cons a r => rw [hL] at hl; simp at hl; subst hl; exact hfirst t ht a (by rw [hL]; simp)
+      | cons j js =>
+        have hne : instLines useHex j ≠ [] := by unfold instLines; split <;> simp
+        cases hL : instLines useHex j with
+        | nil => exact absurd hL hne
+        | cons a r =>
+          simp only [List.flatMap_cons, hL, List.cons_append, List.head?_cons, Option.mem_def, Option.some.injEq] at hl
+          subst hl; exact hfirst j (hi j (by simp)).1 a (by rw [hL]; simp)
+    obtain ⟨first, rest, i0, hl, h2, hrow, hi0, h3, h4⟩ := inst_lines useHex i h1.1 (him i (by simp)) _ hnext
+    have e : ({ res := i0.res, row := i.row, args := i0.args, ext := i.ext, md := i.md } : Inst) = i := by rw [← hrow]; exact hi0
+    simp only [List.flatMap_cons, List.append_assoc, hl, readBody', isInstLine, List.head?_cons, beq_self_eq_true,
+      Bool.not_true, Bool.false_eq_true, if_false, List.tail_cons, h2, hrow, h3, h4, e, h1.2, ih]
 
-theorem instLines_len (useHex : Int → Bool) (t : Inst) : 1 ≤ (instLines useHex t).length := by simp [instLines]
+theorem instLines_len (useHex : Int → Bool) (t : Inst) : 1 ≤ (instLines useHex t).length := by unfold instLines; split <;> simp
 
 /-- the attachments of every instruction of the block are well-formed -/
 def blockMdOK (useHex : Int → Bool) (b : Block) : Prop := (∀ i ∈ b.insts, mdOK useHex i) ∧ mdOK useHex b.term
